@@ -201,7 +201,47 @@ def gen_cases(tier, seed):
     cases += option_battery_cases(tier, rng)
     cases += menu_cases(tier, rng)
     cases += macro_cases(tier, rng)
+    cases += api_cases(random.Random(seed * 131 + 17), 40 if tier == "quick" else 600)
     return cases
+
+
+def api_cases(rng, n):
+    """M: what the APPLICATION does to the Shell between two calls, after the user's keys have moved the library's own state: several
+    history sources, the user makes another one the active one (C-r C-r continues the search in the next source; the source-cycling
+    commands through private binds), walks, searches; then the application deletes a source by name (the active one, the last
+    one, another one), deletes all of them, adds one; the next call walks and searches again"""
+    NAMES = ["main", "second", "third"]
+    binds, seqs = private_binds(["history-source-next", "history-source-prev"])
+    nxt, prv = seqs["history-source-next"], seqs["history-source-prev"]
+    USER = [b"\x12\x12", b"\x12\x12\x12", b"\x12", nxt, prv, nxt + nxt, b"\x10", b"\x10\x10", b"\x0e", b"\x1b<", b"\x1b>", b"s\x12e", b"\x13\x13", b"fir\x1bp",
+            b"\x12\x12\x07", b"\x12\x12\r", b"o\x1b[A", b"\x0f", b"\t"]
+    out = []
+    for i in range(n):
+        mode = "emacs" if i % 4 else "vi"
+        k = 1 + i % 3
+        c = {"id": "c01api-%d" % i, "inputrc": ("set editing-mode vi\n" if mode == "vi" else "") + case_options(rng, i), "w": 80, "h": 24, "prompt": "> ",
+             "binds": binds, "sources": [{"name": NAMES[j], "kind": "mem", "lines": HISTORY[j:] if rng.random() < 0.85 else []} for j in range(k)],
+             "setups": [], "sessions": [], "preacts": [], "hangms": 10000}
+        for si in range(5):
+            acts = []
+            if si:
+                for _ in range(rng.choice([1, 1, 1, 2, 0])):
+                    r = rng.random()
+                    if r < 0.55:
+                        acts.append({"k": "histdel", "s": rng.choice(NAMES[:k] + [NAMES[k - 1]] * 2 + ["nosuch"])})
+                    elif r < 0.75:
+                        acts.append({"k": "histdelall"})
+                    else:
+                        acts.append({"k": "histadd", "s": rng.choice(["extra", "main", "second"]), "h": rng.choice(["", "added one|added two"])})
+            c["preacts"].append(acts)
+            ks = [rng.choice(USER) for _ in range(rng.randint(1, 5))]
+            if mode == "vi":
+                ks = [rng.choice([b"\x1b", b"\x1bk", b"\x1bkk", b"\x1b/s\r", b"\x1bj", b"i"])] + ks
+            ks.append(rng.choice([b"\r", b"\r", b"\x03", b"\x0f"]))
+            c["setups"].append(setup("", 0, "emacs" if mode == "emacs" else "vi-insert"))
+            c["sessions"].append([SETUP_KEY] + [keys(x) for x in ks])
+        out.append(c)
+    return out
 
 
 def macro_cases(tier, rng):
@@ -403,6 +443,9 @@ def run(rep, tier, seed):
     rep.explanation = ("TLC explores the Session reference exhaustively (bounded); every recorded session of the real "
                        "Shell.Readline is validated line by line against SessionTrace (no action exists for panic, hang, "
                        "died, linger; NoSpin bounds reads after end of input)")
+
+
+FAM_SPEC = ("SessionTrace", "SessionTrace.cfg")
 
 
 def replay(rep, rp):
